@@ -360,12 +360,16 @@ class Parser:
 
     def parse_integer_literal(self, stream: TokenStream) -> Expression:
         value = stream.current.value
-        if value.startswith("0") and len(value) > 1:
+        if self._has_leading_zero(value):
             raise JSONPathSyntaxError("invalid integer literal", token=stream.current)
 
         # Convert to float first to handle scientific notation.
         try:
             return IntegerLiteral(stream.current, value=int(float(value)))
+        except OverflowError:
+            # Too big for a double. Keep it as a number that is greater
+            # than every other number.
+            return FloatLiteral(stream.current, value=float(value))
         except ValueError as err:
             raise JSONPathSyntaxError(
                 "invalid integer literal", token=stream.current
@@ -373,7 +377,7 @@ class Parser:
 
     def parse_float_literal(self, stream: TokenStream) -> Expression:
         value = stream.current.value
-        if value.startswith("0") and len(value.split(".")[0]) > 1:
+        if self._has_leading_zero(value):
             raise JSONPathSyntaxError("invalid float literal", token=stream.current)
 
         try:
@@ -382,6 +386,14 @@ class Parser:
             raise JSONPathSyntaxError(
                 "invalid float literal", token=stream.current
             ) from err
+
+    def _has_leading_zero(self, value: str) -> bool:
+        """Return `True` if the integer part of _value_ has a leading zero."""
+        start = 1 if value.startswith("-") else 0
+        end = start
+        while end < len(value) and value[end] in "0123456789":
+            end += 1
+        return end - start > 1 and value[start] == "0"
 
     def parse_prefix_expression(self, stream: TokenStream) -> Expression:
         tok = stream.next_token()
